@@ -723,6 +723,42 @@ def rule_weight_preserve(ctx: Ctx) -> None:
                      func=f"DensityMatrix.{name}", construct=f"DensityMatrix.{name}: renormalises by the trace")
         else:
             ctx.ok("weight.preserve", m, fn, what=f"DensityMatrix.{name} does not rescale the state")
+    # a projective measurement divides by the *conditional* probability of the outcome, p(outcome) / Tr(rho), so that the weight of a
+    # state made sub-normalised by photon loss is carried through the measurement (the mixed-stabilizer backend keeps it)
+    fn = ci.methods().get("apply_measurement")
+    if fn is None:
+        raise AnalysisError("DensityMatrix.apply_measurement missing")
+    ctx.touch(m, fn)
+    env_ = {}
+    for a_ in ast.walk(fn):
+        if isinstance(a_, ast.Assign) and len(a_.targets) == 1:
+            t_ = a_.targets[0]
+            if isinstance(t_, ast.Name):
+                env_[t_.id] = a_.value
+            elif isinstance(t_, ast.Tuple) and isinstance(a_.value, ast.Tuple) and len(t_.elts) == len(a_.value.elts):
+                for x_, y_ in zip(t_.elts, a_.value.elts):
+                    if isinstance(x_, ast.Name):
+                        env_[x_.id] = y_
+    divs = [x for x in ast.walk(fn) if isinstance(x, ast.BinOp) and isinstance(x.op, ast.Div) and any(isinstance(y, ast.BinOp) and isinstance(y.op, ast.MatMult) for y in ast.walk(x.left))]
+    if not divs:
+        raise AnalysisError("DensityMatrix.apply_measurement: post-measurement normalisation not found")
+    for dv in divs:
+        n += 1
+        d_ = dv.right
+        for _ in range(3):
+            if isinstance(d_, ast.Name) and d_.id in env_:
+                d_ = env_[d_.id]
+        cond = isinstance(d_, ast.BinOp) and isinstance(d_.op, ast.Div) and any(
+            (isinstance(c_, ast.Call) and call_attr(c_) in ("sum", "trace")) for c_ in ast.walk(d_.right))
+        if cond:
+            ctx.ok("weight.preserve", m, dv, what="measurement divides by p(outcome) / total weight")
+        else:
+            ctx.fail("weight.preserve", m, dv,
+                     f"DensityMatrix.apply_measurement divides the projected state by `{short(d_, 50)}`, the unconditional probability of the outcome: "
+                     f"for a state made sub-normalised by an earlier PhotonLoss (trace = survival probability) this resets the trace to 1, while the "
+                     f"mixed-stabilizer backend keeps the weight — the two backends disagree after any measurement that follows a loss "
+                     f"(divide by p(outcome) / sum of the outcome probabilities instead)", func="DensityMatrix.apply_measurement",
+                     construct="DensityMatrix.apply_measurement: renormalises a sub-normalised state")
     ss = "graphiq/backends/stabilizer/state.py"
     sm = repo.module(ss)
     ms = repo.cls("MixedStabilizer", ss)
